@@ -17,18 +17,18 @@ TB = ('Trusted: Lean 4.33 kernel; axioms propext/Quot.sound/Classical.choice '
 
 P = {
  'C01': dict(
-  cat='proof', tech='Lean 4 theorems (stage inverses) + differential correspondence + round-trip campaign',
-  text='Lean theorems for every invertible stage of the compressor for all inputs (RLE1 round trip and greedy packing of collect(); do_mtf = reference MTF/zero-run coding and its inverse; canonical code assignment and decode∘encode; transmit(): the strict reference parser recovers every field, bit count = 8·out_expect_len); on the decoder side retrieve/decode/emit are proved equal to the reference block decoder; the hand models are tied to the C functions by in-process differential runs, and the whole pipeline by a process-level round-trip campaign (lbzip2→lbzip2 and lbzip2→libbz2) over levels, --sequential, worker counts and perturbed schedules.',
-  note=TB + 'Partial: the forward block sort divbwt, the EM clustering and package_merge are exercised per run, not proved, and the stage theorems are not composed into one whole-file round-trip theorem; thread timing is perturbed, not enumerated.',
+  cat='proof', tech='Lean 4 whole-file round-trip theorem (compressFile model, contract-abstracted BWT/table choice, proved satisfiable) composed from stage inverses and lifted over the scheduler model + differential correspondence (in-process stages, real divbwt vs proved BWT, byte-for-byte whole files) + round-trip campaign',
+  text='Lean theorems for every invertible stage of the compressor for all inputs (RLE1 round trip and greedy packing of collect(); do_mtf = reference MTF/zero-run coding and its inverse; canonical code assignment and decode∘encode; transmit(): the strict reference parser recovers every field, bit count = 8·out_expect_len); on the decoder side retrieve/decode/emit are proved equal to the reference block decoder; the hand models are tied to the C functions by in-process differential runs, and the whole pipeline by a process-level round-trip campaign (lbzip2→lbzip2 and lbzip2→libbz2) over levels, --sequential, worker counts, perturbed schedules and input/output buffer sizes. Whole file: roundtrip / roundtrip_gen (Spec.decodeFile (compressFile level seq input choose) = ok input for every input, level, mode and every choice function meeting the decidable contract ChoicesOK), roundtrip_naive (unconditional for the rotation-sort BWT, whose inversion by the format\'s inverse BWT is proved), assemble_sched / roundtrip_sched (the file written by any terminated run of the scheduler model is compressFile), Lbzip2.expand_compress and sched_roundtrip (through the model of lbzip2 -d and its scheduler).',
+  note=TB + 'Partial: divbwt.c and the table chooser (EM clustering, package_merge) enter only through the contract ChoicesOK, which is evaluated per run on the real code\'s choices (w24_bwt: real divbwt() in-process vs the proved BWT, exhaustive small scope + adversaries; w23_roundtrip: choices read back from real streams, model then reproduces the real file byte for byte), not proved of the C code; thread timing is perturbed, not enumerated.',
   ref='6 C01'),
  'C02': dict(
-  cat='proof', tech='Lean 4 arithmetic theorems over translated constants + strict inspector on every real output',
-  text='Theorems over the constants/expressions regenerated from encode.c (cl0 = floor(log2) and the dummy second table is Kraft-complete for every alphabet size 3..258; selector count bound; tree_pad keeps the start length in 1..20). Every stream produced in the campaign is parsed bit by bit by an independent strict inspector and decoded by libbz2.',
-  note=TB + 'The inspector (tools/bzformat.py) is hand-written and cross-checked against libbz2 and the Lean Spec; transmit() itself is tied by observation of its output only.',
+  cat='proof', tech='Lean 4 theorem that the strict inspector accepts every compressFile output with all C02 rules (inspect_compress) + arithmetic theorems over translated constants + strict inspector on every real output',
+  text='Theorems over the constants/expressions regenerated from encode.c (cl0 = floor(log2) and the dummy second table is Kraft-complete for every alphabet size 3..258; selector count bound; tree_pad keeps the start length in 1..20). Whole file: inspect_compress / _gen / _aligned / _naive — the Lean strict inspector accepts compressFile … and reports one stream of the requested level ending at the last byte, one record per block of the packing rule, nblock in 1..level·100000, not randomised, origPtr < nblock, 2..6 Kraft-complete tables with lengths 1..20, 1..18002 selectors each naming a table. Every stream produced in the campaign (incl. full incompressible 900000-byte blocks) is parsed bit by bit by an independent strict inspector and decoded by libbz2.',
+  note=TB + 'The Python inspector (tools/bzformat.py) is hand-written and cross-checked against libbz2 and the Lean Spec; the compressFile model is tied to the real encoder per run (w16_transmit in-process; w23_roundtrip byte-for-byte on whole files with the real choices fed in). Table/BWT choice enters through the contract ChoicesOK as in C01.',
   ref='6 C02'),
  'C03': dict(
   cat='proof', tech='Lean 4 inductive invariants over a transition-system model of the compression scheduler (guards translated from source) + determinism campaign',
-  text='SchedC is a labelled transition system whose guards, priority order, thresholds and capacities are regenerated from compress.c/process.c; theorems hold for every worker count and every interleaving in both modes (sink order = next-chain from (0,0); output_eq: two terminated runs with any worker counts, slot totals and schedules write the same block sequence = the canonical sequential one; xread fills whole chunks under any read fragmentation; xwrite writes everything under any short-write pattern). The real binary is compared byte-for-byte against its -n1 run under random worker counts, perturbation seeds and plumbing (pipe, fragmented pipe, file stdin/stdout, FILE operand).',
+  text='SchedC is a labelled transition system whose guards, priority order, thresholds and capacities are regenerated from compress.c/process.c; theorems hold for every worker count and every interleaving in both modes (sink order = next-chain from (0,0); output_eq: two terminated runs with any worker counts, slot totals and schedules write the same block sequence = the canonical sequential one; xread fills whole chunks under any read fragmentation; xwrite writes everything under any short-write pattern; File.file_eq / file_is_function: the BYTES of the file written by any terminated run equal compressFileGen level cap chunk mode input choose). The real binary is compared byte-for-byte against its -n1 run under random worker counts, perturbation seeds and plumbing (pipe, fragmented pipe, file stdin/stdout, FILE operand).',
   note=TB + 'Partial: the do_* bodies are hand-modelled (tie = hook-trace acceptance + output comparison); determinism of the per-block C functions is observed, not proved.',
   ref='6 C03'),
  'C04': dict(
@@ -37,17 +37,17 @@ P = {
   note=TB + 'The C collect() is tied to the model differentially (exhaustive for small scope, sampled beyond).',
   ref='6 C04'),
  'C05': dict(
-  cat='proof', tech='Lean 4 theorems for decoder pieces over translated tables + malformed-stream differential campaign against a strict oracle',
+  cat='proof', tech='Lean 4 whole-file soundness theorem of the decoder model (expand_sound) composed from block-level theorems over translated tables/parser + in-process and whole-file differential correspondence + malformed-stream campaign against a strict oracle',
   text='Soundness lemmas of the block decoder over the tables regenerated from decode.c/parse.c (windowed delta decoding = bit-by-bit reference with every intermediate length in 1..20; make_tree Kraft test and lookup; sliding-list MTF = list MTF; run accumulation; emitter = un-RLE with missing count rejected), composed into retrieve_sound (retrieve() OK ⇒ the strict reference parses the same block with the same end position, for every segmentation of the input) and block_decode_sound (retrieve+decode+emit+CRC ⇒ Spec.Bzip2.decodeBlock); tied in-process to the C functions; per run a field-aimed malformed-stream campaign: lbzip2 -d exits 0 ⇒ the strict oracle accepts and the bytes equal the reference decoding.',
-  note=TB + 'Partial: the lift from single blocks to whole files (header parser folded over the input + do_reorder) is not one theorem; the block-level theorems are. Oracle = tools/bzformat.py cross-checked with libbz2 and the Lean Spec.',
+  note=TB + 'Whole files: File.expand_sound / expand_rejects_malformed — the model of lbzip2 -d (Model.Expand.expandFile: header sniff, the translated Gen.parseStep over the bit FIFO, retrieve/decode/emit models, both CRC checks, trailing-data rules) accepts a byte string only if the strict reference decodes it to the same bytes; tied to the real binary on whole files per run (w22_expand). Oracle = tools/bzformat.py cross-checked with libbz2 and the Lean Spec.',
   ref='6 C05'),
  'C06': dict(
-  cat='proof', tech='Lean 4 completeness lemmas + valid-stream generator campaign against a strict oracle',
+  cat='proof', tech='Lean 4 whole-file completeness theorem of the decoder model (expand_complete / expand_iff) + valid-stream generator campaign against a strict oracle',
   text='Completeness: retrieve_complete — everything the strict reference accepts is accepted by retrieve() with the same block, for every segmentation (the only other answer is MORE/ERR_EOF when fewer than 32 bits follow); every in-range delta path is accepted wherever the 6-bit windows fall; and a generator covering every degree of freedom of the format (2..6 random complete tables up to 20-bit codes, arbitrary selector sequences, surplus selectors, zig-zag deltas, randomised blocks, blocks at any bit offset, mixed-level concatenations, trailing non-header data, unused incomplete tables): oracle accepts ⇒ lbzip2 -d exits 0 with the same bytes, for several worker counts.',
-  note=TB + 'Partial as C05.', ref='6 C06'),
+  note=TB + 'Whole files: File.expand_complete / expand_iff (the decoder model and the strict reference accept exactly the same byte strings with the same output), expandFile_ne_fuel. Tie as C05.', ref='6 C06'),
  'C07': dict(
-  cat='proof', tech='total Lean decoder models + rejection campaign (every truncation point, FILE operands, timeouts, ASan in thorough)',
-  text='The decoder models are total functions (no fuel); the malformed campaign and every truncation point of multi-block/multi-stream files are run on stdin and as FILE operands under a timeout: status exactly 1, diagnostic printed, no signal, no output file left, input untouched.',
+  cat='proof', tech='Lean 4 theorems: every byte string the reference does not decode is rejected by the decoder model under every schedule (File.damaged_rejected / damaged_never_terminates), and a rejection ends with status 1, a diagnostic and no output file (corrupt_rejected_cleanly) + rejection campaign (every truncation point, out-of-range fields with consistent CRCs, FILE operands, timeouts, ASan in thorough)',
+  text='File.damaged_rejected / rejected_iff / damaged_never_terminates over the whole-file decoder model and its scheduler instantiation; corrupt_rejected_cleanly over the operand-loop model (status exactly 1, stderr, output removed); block_error_is_fatal / overfull_block_is_fatal / truncated_stream_is_error over the translated do_reorder / parse tail. The malformed campaign and every truncation point of multi-block/multi-stream files are run on stdin and as FILE operands under a timeout: status exactly 1, diagnostic printed, no signal, no output file left, input untouched.',
   note=TB + 'Partial: absence of crashes and hangs in the C program is observed (ASan/UBSan build in the thorough tier), not proved.',
   ref='6 C07'),
  'C08': dict(
@@ -58,17 +58,17 @@ P = {
  'C09': dict(
   cat='proof', tech='Lean 4 split theorems for resumable decoders + scheduler refinement + configuration-matrix campaign',
   text='emit_split (output identical for every list of output buffer sizes), retrieve_split (result identical for every segmentation of the input words, fast path = slow path), SchedD output_eq (sink sequence independent of worker count, schedule and granularity) over guards regenerated from expand.c; the real binary is run over input granularities {4..262144} × output granularities {1..900000} × worker counts × perturbation seeds × {stdout, file, -c, -t} and compared with the default configuration and the oracle.',
-  note=TB + 'Partial: header-parser suspension (parse() returning MORE) is tied by the granularity campaign, not by a theorem; pthread semantics assumed.',
+  note=TB + 'Whole files: File.sched_output_is_expandFile / sched_output_indep — SchedD instantiated with the real parser/retriever models on the file\'s bits: every terminated run, whatever n, granularity, slots, candidates and schedule, writes expandFile\'s bytes. Header-parser suspension across buffers is part of expandFile\'s bit-FIFO proof; pthread semantics assumed.',
   ref='6 C09'),
  'C10': dict(
   cat='proof', tech='Lean 4 safety invariant over the expansion scheduler model with uninterpreted candidate set + planted-magic campaign',
   text='SchedD is parametric in an arbitrary set of scanner candidates and uninterpreted parse/retrieve functions; spec_safe: every buffer reaching the sink has base = head of order_q, which is the unwritten suffix of the sequential parse chain; bogus blocks are freed without reaching the sink. Streams with the 48-bit magic planted inside coded data (as complete decodable blocks), across input-block boundaries and in trailing data are decoded under many worker counts/granularities/seeds and compared with the oracle.',
-  note=TB + 'Partial: the binary is tied to the model by trace acceptance on sampled runs and output comparison.',
+  note=TB + 'Whole files: File.speculation_invisible / speculation_output / speculation_never_fails / speculation_never_rescues (arbitrary scanner findings on a concrete file, real parser/retriever models). The binary is tied to the model by trace acceptance on sampled runs and output comparison.',
   ref='6 C10'),
  'C11': dict(
   cat='proof', tech='Lean 4 inductive invariants (capacity, conservation, order, progress) for both scheduler models, guards/constants translated from source',
   text='For every worker count, input shape and interleaving of SchedC/SchedD: queue sizes within the pqueue_init/deque_init extents, resource conservation, stream order at the sink, and progress; numeric side conditions discharged on the regenerated constants. Hook assertions (LBZIP2_VERIF_CHECK) and trace acceptance tie the binary to the models; runs under timeouts with perturbation and scripted delays (the F3 deadlock schedule is replayed).',
-  note=TB + 'Partial: pthread/kernel semantics assumed; expansion deadlock-freedom and unord_q capacity need EMIT_THRESH < total_out (true for every shipped slot formula); termination measure and wake-up discipline are proved for compression only. The lifecycle defects F2-F5 found through these models were repaired (known_findings.json).',
+  note=TB + 'Partial: pthread/kernel semantics assumed; expansion deadlock-freedom and unord_q capacity need EMIT_THRESH < total_out (true for every shipped slot formula); termination (lexicographic measures, no fairness assumption) and the wake-up discipline are proved for both schedulers, for decompression also on the refinement SchedDW (mutex holder, next_task, per-worker states, spurious wake-ups); every trace line incl. thread ids and xsignal events is replayed against the refined model. The lifecycle defects F2-F5 found through these models were repaired (known_findings.json).',
   ref='6 C11'),
  'C12': dict(
   cat='proof', tech='ownership discipline over the scheduler models + ThreadSanitizer campaign',
@@ -86,9 +86,9 @@ P = {
   note=TB + 'scan() itself (60 lines) is hand-modelled; tie = differential runs (2·10^4 quick, 10^6 thorough) incl. every bit offset × live × skip family.',
   ref='6 C14'),
  'C15': dict(
-  cat='proof', tech='Lean 4 theorem over the translated parse() step function + exhaustive per-file CRC bit-flip campaign',
+  cat='proof', tech='Lean 4 whole-file theorem: every bit flip of every stored CRC field of every accepted file is rejected (over the decoder model built on the translated parse() step) + exhaustive per-file CRC bit-flip campaign incl. compensated flips and forged special CRC values',
   text='Over the Gen-translated parse switch: a stored stream CRC different from the computed one yields ERR_STRMCRC; the stored block CRC reaches do_reorder unchanged; per run every bit of every stored CRC field of a corpus (1..many blocks, 1..3 streams, scanner- and parser-found blocks) is flipped and lbzip2 -d must exit 1 with -n1 and -n4.',
-  note=TB + 'do_reorder comparison is hand-modelled; exhaustive per file, not over all files.',
+  note=TB + 'Whole files: File.block_crc_flip_rejected / stream_crc_flip_rejected / crc_flip_never_terminates for every byte string the decoder accepts, every field found by the reference walk (crcFields) and every k < 32. do_reorder\'s comparison is a template checked verbatim against the source; the campaign is exhaustive per file, not over all files.',
   ref='6 C15'),
  'C16': dict(
   cat='proof', tech='Lean 4 invariant over the operand step sequence with fault/signal oracle + syscall fault injection (LD_PRELOAD)',
